@@ -363,6 +363,8 @@ class Fn:
                 return False
             if payload["k"] == "aggregate" and payload["kind"].get("agg") == "adt" and payload["kind"]["adt"].endswith("result::Result") and payload["kind"]["variant"] == "Err":
                 continue
+            if payload["k"] == "aggregate" and payload["kind"].get("agg") == "adt" and payload["kind"]["adt"].endswith("option::Option") and payload["kind"]["variant"] == "None":
+                continue            # the Option converters turn None into an error
             if payload["k"] == "use" and self._always_err_value(payload["op"], depth + 1):
                 continue
             return False
